@@ -40,6 +40,19 @@ func probe(c *hx.Ctx) cfg {
 		}
 		c.Known("fat32-fatsize-wrap", o.class == "panic", "16 GiB volume, sectors per FAT 2^23: "+o.class+" "+o.msg)
 	}
+	// iso-joliet-nonbmp-name (C06's finding; here only the switch of the mirror): does the Joliet name
+	// decoder join a surrogate pair? A Joliet record named D83D DE00 is U+1F600 under UTF-16
+	o = guard(func() (string, error) {
+		b := make([]byte, 38)
+		b[0], b[32] = 38, 4
+		copy(b[33:], []byte{0xd8, 0x3d, 0xde, 0x00})
+		des, err := iso9660.V18ParseDirEntries(b, 38, 2048, true)
+		if err == nil && len(des) == 1 && des[0].Name == "\U0001F600" {
+			g.u16 = true
+		}
+		return "", err
+	})
+	c.Stat("cfg.u16=" + b01(g.u16))
 	c.Stat("cfg.er=" + b01(g.er))
 	c.Stat("cfg.jol=" + b01(g.jol))
 	c.Stat("cfg.wrap=" + b01(g.wrap))
